@@ -1340,3 +1340,28 @@ def positional_calls(trees: dict[str, ast.Module]) -> int:
             call.args, call.keywords = new_args, new_kws
             call._by_param = by  # type: ignore[attr-defined]
     return n
+
+
+# ------------------------------------------------------------------------------------------------------------------
+# N8: literals on the right of a comparison (``None is x`` -> ``x is None``, ``0 == n`` -> ``n == 0``, ``1 <= n`` -> ``n >= 1``)
+
+
+class _LiteralsRight(ast.NodeTransformer):
+    FLIP = {ast.Lt: ast.Gt, ast.Gt: ast.Lt, ast.LtE: ast.GtE, ast.GtE: ast.LtE, ast.Eq: ast.Eq, ast.NotEq: ast.NotEq, ast.Is: ast.Is, ast.IsNot: ast.IsNot}
+
+    def __init__(self):
+        self.changed = 0
+
+    def visit_Compare(self, node):
+        self.generic_visit(node)
+        if len(node.ops) == 1 and type(node.ops[0]) in self.FLIP and isinstance(node.left, ast.Constant) and not isinstance(node.comparators[0], ast.Constant):
+            self.changed += 1
+            return ast.copy_location(ast.Compare(left=node.comparators[0], ops=[self.FLIP[type(node.ops[0])]()], comparators=[node.left]), node)
+        return node
+
+
+def literals_right(tree: ast.Module) -> int:
+    t = _LiteralsRight()
+    t.visit(tree)
+    ast.fix_missing_locations(tree)
+    return t.changed
